@@ -67,6 +67,7 @@ use super::graph::{Vertex as GraphVertexTrait, Edge as GraphEdgeTrait};
 //@ include units/C04/builders.rs
 //@ mode full
 //@ include units/C02/il_glue.rs
+//@ include units/C02/il_shape.rs
 proof fn vf_canary_il() ensures false { /* padding: tools/verdict.py compares rustc byte offsets with Python character offsets; non-ASCII characters in shared files shift spans by a few bytes, this keeps the shifted span inside the canary ........................................................................ */ }
 } // mod il
 
@@ -88,6 +89,21 @@ use crate::c02_arith::*;
 proof fn vf_canary_mips() ensures false { /* padding: tools/verdict.py compares rustc byte offsets with Python character offsets; non-ASCII characters in shared files shift spans by a few bytes, this keeps the shifted span inside the canary ........................................................................ */ }
 } // mod semantics
 } // mod mips
+pub mod ppc {
+pub mod semantics {
+use crate::*;
+use crate::il::*;
+use crate::il::Expression as Expr;
+use crate::strmap::*;
+use crate::capstone_mp::capstone;
+use crate::capstone_mp::capstone_sys::ppc_reg;
+use crate::capstone_mp::capstone_sys::{cs_ppc, cs_ppc_op, ppc_op_mem, ppc_op_type};
+use vstd::std_specs::iter::IteratorSpec;
+use crate::c02_arith::*;
+//@ include units/C02/ppc_regs.rs
+proof fn vf_canary_ppc() ensures false { /* padding: tools/verdict.py compares rustc byte offsets with Python character offsets; non-ASCII characters in shared files shift spans by a few bytes, this keeps the shifted span inside the canary ........................................................................ */ }
+} // mod semantics
+} // mod ppc
 } // mod translator
 
 proof fn vf_canary_root() ensures false { /* padding: tools/verdict.py compares rustc byte offsets with Python character offsets; non-ASCII characters in shared files shift spans by a few bytes, this keeps the shifted span inside the canary ........................................................................ */ }
